@@ -2245,7 +2245,8 @@ def c05(tier, rng):
             sig = usig(reqs[n])
             if not content and chomp != 'strip' and tail[0] == 'DONE' and blk and blk[0][4] == '\n' + exps[n] * 0 and exps[n] in ('', ) :
                 sig = 'C05:contentless-clip-keep-at-end'
-            elif not content and tail[0] == 'DONE' and blk and chomp in ('clip', 'keep'):
+            elif not content and tail[0] == 'DONE' and blk and chomp in ('clip', 'keep') and set(blk[0][4]) <= {'\n'}:
+                # (the document ends with the scalar: nothing follows it in these cases)
                 sig = 'C05:contentless-clip-keep-at-end'
             res.oracle_failures.append({'sig': sig, 'what': why, 'reqs': [reqs[n]], 'input': repr(unhx(reqs[n].split(' ')[4]))})
         if n in model and model[n] != a and 'PANIC' not in a:
@@ -2261,6 +2262,46 @@ def c05(tier, rng):
                     break
         if n % 20011 == 0:
             res.samples.append({'document': unhx(reqs[n].split(' ')[4]), 'expected': exps[n]})
+    # the same scalars with something after them: a sibling entry of the parent, a document-end
+    # marker, a new document (chomping must not depend on the scalar being last in the stream)
+    fcases, freqs, fexps = [], [], []
+    sib = {'top': None, 'doc0': None, 'seq': '- z\n', 'map': 'z: 1\n', 'nest': '  - z\n', 'deep': '    z: 1\n'}
+    for c in cases:
+        ctx, style, chomp, combo, final_nl, explicit, comment = c
+        if len(combo) > 2 or not final_nl or comment:
+            continue
+        doc = R.block_render(ctx, style, chomp, combo, True, explicit, comment)
+        if not doc.endswith('\n'):
+            doc += '\n'
+        for name, tail_text in (('sibling', sib[ctx]), ('marker', '...\n'), ('document', '--- z\n')):
+            if tail_text is None:
+                continue
+            fcases.append((c, name))
+            freqs.append('evt str 128 0 ' + hx(doc + tail_text))
+            fexps.append(R.block_ref_text(style, chomp, combo))
+    fimpl = run_impl(freqs)
+    fsel = list(range(0, len(freqs), max(1, len(freqs) // 20000)))
+    fmodel = dict(zip(fsel, run_model([freqs[i] for i in fsel])))
+    for n, (c, name) in enumerate(fcases):
+        res.evaluations += 1
+        a = fimpl[n]
+        ctx, style, chomp, combo, final_nl, explicit, comment = c
+        content = any(k != 'e' for k, _ in combo)
+        res.count(f'followed-by-{name}/{"content" if content else "empty"}')
+        got, tail = R.parse_events(a) if 'PANIC' not in a else ([], ['PANIC'])
+        blk = [e for e in got if e[0] == 'SC' and e[3] in ('L', 'F')]
+        why = None
+        if tail[0] != 'DONE':
+            why = f'followed by a {name}: rejected: ' + (unhx(tail[2]) if tail[0] == 'ERR' else tail[0])
+        elif len(blk) != 1 or blk[0][4] != fexps[n]:
+            why = f'followed by a {name}: block scalar value {blk[0][4] if blk else None!r} where YAML assigns {fexps[n]!r}'
+        if why:
+            sig = usig(freqs[n])
+            if not content and tail[0] == 'ERR' and name in ('marker', 'document') and 'wrongly indented line in block scalar' in unhx(tail[2]):
+                sig = 'C05:contentless-block-scalar-then-marker-error'
+            res.oracle_failures.append({'sig': sig, 'what': why, 'reqs': [freqs[n]], 'input': repr(unhx(freqs[n].split(' ')[4]))})
+        if n in fmodel and fmodel[n] != a and 'PANIC' not in a:
+            diff(res, freqs[n], a, fmodel[n], 'evt')
     return res
 
 
